@@ -779,6 +779,14 @@ class Exec:
     def replicate(self, st, a: VSeq, n: VNum):
         from .builtins_model import rep_fn
         simp = z3.simplify(z3.Length(a.term))
+        sp = self.ctx.registry.specs.get("repl") if self.ctx.registry else None
+        if sp is not None and z3.is_int_value(simp) and simp.as_long() == 1 and a.elem in (S.Int, S.Real):
+            # [x] * n for a number x: the n-fold repetition, as a sequence of exact numbers (spec function repl)
+            from .calls import apply_spec
+            x0 = z3.simplify(a.term[0])
+            x0 = z3.ToReal(x0) if x0.sort() == z3.IntSort() else x0
+            v = apply_spec(self, sp, [VNum(z3.simplify(x0), "real"), n], st)
+            return VSeq(v.term, S.Real, a.kind)
         r = z3.Const(S.fresh_name("rep"), a.term.sort())
         nn = z3.If(n.term > 0, n.term, 0)
         st.facts.append(z3.Length(r) == nn * z3.Length(a.term))
